@@ -9,6 +9,12 @@ def generate(tier, rng):
     derives = ['Display', 'AsRefStr', 'IntoStaticStr', 'VariantNames']
     enums = namecorpus.build_enums(rng, tier, 'C03', derives, ['names', 'vnames'], generics_pool=('', 'ty', '', 'lt', 'const'),
                                    namings=namecorpus.NAMINGS + namecorpus.TIE_NAMINGS)
+    from .. import strcorpus
+    soup = strcorpus.build_soup(rng, tier, 'C03', derives=derives, feats=['names', 'vnames'], n=30 if tier == 'quick' else 300,
+                                prefix_pool=namecorpus.PREFIXES, with_default=False)
+    for e in soup:
+        e.cis = rng.random() < 0.5
+    enums += soup
     c = Corpus()
     for e in enums:
         c.add(e)
@@ -24,7 +30,7 @@ def generate(tier, rng):
         for x in (e, t):
             keys = ','.join(rustgen.name_keys(x))
             for v in x.variants:
-                if v.dis:
+                if v.dis or v.default or v.tr:
                     continue
                 cls = namecorpus.naming_class(v) + '/' + v.kind
                 c.op(x.id, 'names %s 1 x %s' % (hx(v.ident), keys), cls, verdict=not cls.startswith('ser') or 'tie' not in cls)
